@@ -1,19 +1,21 @@
 #!/bin/sh
 # MANIFEST.setup_cmd: build everything from files on disk, offline.
-set -e
 cd "$(dirname "$0")"
 export GOFLAGS=-mod=mod GOPROXY=off
 unset GOTOOLCHAIN GOSUMDB || true
 mkdir -p .cache harness/bin evidence replay coq/cases
-cp /repo/go.sum harness/go.sum
-# translator first: it regenerates coq/theories/Gen from /repo
-if [ -d harness/cmd/gotrans ]; then
-  (cd harness && go build -o bin/gotrans ./cmd/gotrans) && harness/bin/gotrans -repo /repo -out coq/theories/Gen -cache .cache/gotrans >/dev/null || echo "setup: gotrans failed (checks will report it)"
-fi
-(cd coq && ./mkproject.sh && timeout 7200 make -j16 -k) || echo "setup: coq build incomplete (checks will report it)"
-for d in harness/cmd/*/; do
-  c=$(basename "$d")
-  [ "$c" = gotrans ] && continue
-  (cd harness && go build -tags verif -o bin/$c ./cmd/$c) || echo "setup: go build $c failed (checks will report it)"
-done
+python3 - <<'PY'
+import os, sys
+sys.path.insert(0, "lib")
+from vf import core
+ok, out, info = core.gotrans()
+print("gotrans:", "ok" if ok else "FAILED (checks will report it)\n" + out[-2000:])
+ok, out = core.coq_make([])
+print("coq build:", "ok" if ok else "INCOMPLETE (checks will report it)\n" + "\n".join(l for l in out.splitlines() if not l.startswith("COQ"))[-3000:])
+for c in sorted(os.listdir("harness/cmd")):
+    if c == "gotrans":
+        continue
+    rc, out = core.go_build(c)
+    print("go build", c + ":", "ok" if rc == 0 else "FAILED (checks will report it)\n" + out[-1500:])
+PY
 echo setup done
